@@ -15,6 +15,7 @@ from mc.engine import ok, bad, unspecified
 from mc.common import call, Raised, DimArray
 
 ID = "C01"
+OEO = ("decoy",)   # decoy pre-pass only (engine.safe_check): this check edits its array in place itself, so the generic second pass does not apply
 TITLE = "label indexing returns exactly the stored data"
 RULE = ("product of (arrays 0-3D [4D thorough], each axis one of 7 kind/order variants, different lengths) x "
         "(per-dimension menu: full, scalar present/absent, lists (single, reversed, repeated, with absent, empty), "
